@@ -842,7 +842,7 @@ impl Check for C21 {
         ]
     }
     fn plan(&self, tier: Tier) -> Plan {
-        Plan { cases: if tier == Tier::Quick { 24_000 } else { 600_000 }, max_tape: 120, shard_cases: if tier == Tier::Quick { 1_500 } else { 15_000 }, max_shrink_iters: 3000, ..Plan::default() }
+        Plan { cases: if tier == Tier::Quick { 240_000 } else { 2_400_000 }, max_tape: 120, shard_cases: if tier == Tier::Quick { 15_000 } else { 50_000 }, max_shrink_iters: 3000, ..Plan::default() }
     }
     fn run_case(&self, t: &mut Tape, _env: &Env) -> CaseOut {
         let mut out = CaseOut::default();
